@@ -27,10 +27,29 @@ def gen_cases(rng, tier):
         w = rng.choice([1, 100, 8190, 8191, 8192, 8193, 16381, 16382, 16383, 24573, 24574, 40000, rng.randint(1, 70000)])
         h = rng.choice([1, 7, 8191, 8192, 16382, 16383, rng.randint(1, 70000)])
         cases.append(("tiles", [w, h]))
+    # pixmaps with a dimension of 32768 and more: rectangles, rect paths and strokes reaching past coordinate 32767
+    for i in range(12 if tier == "quick" else 120):
+        wide = i % 2 == 0
+        big = rng.choice([32768, 33000, 40000, 65536])
+        w, h = (big, rng.choice([1, 2, 3])) if wide else (rng.choice([1, 2, 3]), big)
+        if wide:
+            l_, r_ = rng.choice([0, 32760, big - 40]), big - rng.choice([0, 1, 5])
+            t_, b_ = 0, h
+        else:
+            t_, b_ = rng.choice([0, 32760, big - 40]), big - rng.choice([0, 1, 5])
+            l_, r_ = 0, w
+        cases.append(("big_draw", [w, h, (i // 2) % 2, (i // 4) % 3, l_, t_, r_, b_]))
     return cases
 
 
 def oracle(suite, args, out):
+    if suite == "big_draw":
+        if out.startswith(("PANIC", "CRASH", "HANG")):
+            return "implementation did not return: " + out[:200]
+        o = ints(out)
+        if len(o) == 2 and args[3] in (0, 1) and (o[0] != 255 or o[1] != 255):
+            return "a rectangle reaching past coordinate 32767 on a %dx%d pixmap is not drawn at its ends (alpha %d, %d)" % (args[0], args[1], o[0], o[1])
+        return None
     if suite == "tiles" and not out.startswith(("PANIC", "CRASH", "HANG")):
         o = ints(out)
         if o == [-1]:
@@ -55,11 +74,13 @@ def oracle(suite, args, out):
 
 
 def relation(suite, args, mo, io):
-    return True if suite == "api_fuzz" else mo == io
+    return True if suite in ("api_fuzz", "big_draw") else mo == io
 
 
 def nontrivial_tag(suite, args, out):
     o = out.split()
     if suite == "tiles":
         return "tiled" if len(o) >= 8 else None
+    if suite == "big_draw":
+        return "big" if len(o) == 2 else None
     return "family%d" % args[1] if len(o) == 1 and o[0].isdigit() and int(o[0]) > 0 else None
